@@ -189,6 +189,14 @@ impl Family for C17Family {
                     if r.encoded != want {
                         j.fail("register-encoding", format!("op a{}#{}: encoded registration response {} differs from 05||04||x||y||len||keyHandle||cert||sig||9000 = {}", o.actor, o.idx, hex(&r.encoded), hex(&want)));
                     }
+                    // the RP entity handed to the store with the record names the application too
+                    for e in rec.events_of(o.actor, o.idx) {
+                        if let Ev::Save { cred, rp_id, .. } = &e.ev {
+                            if rp_id != &cred.rp_id {
+                                j.fail("register-store-entity", format!("op a{}#{}: save_credential was handed a credential for application {:?} together with an RP entity whose id is {rp_id:?}", o.actor, o.idx, cred.rp_id));
+                            }
+                        }
+                    }
                     // the field order also holds when the certificate field is filled
                     let cert = crate::world::sim_certificate(handle.len());
                     let mut want = vec![5u8, 4];
